@@ -2,11 +2,17 @@ import RTV.Lemmas.SpecDecA
 import RTV.Lemmas.SpecDecB
 import RTV.Lemmas.SpecDecC
 import RTV.Lemmas.SpecDecD
+import RTV.Lemmas.SpecDecE
+import RTV.Lemmas.SpecDecF
+import RTV.Lemmas.SpecDecG
+import RTV.Lemmas.SpecDecH
+import RTV.Lemmas.SpecDecI
 /-!
 # C19 (through the model) — the Specs cases of the families the models cover end to end
 
 `RTV.Gen.specCases_*` are regenerated on every run from /repo/Specs (Python-supported cases of
-`Sequence/*/IpAddressModel*.json`, `Sequence/*/GUIDModel*.json`, `Choice/English/BooleanModel*.json`), each with the
+`Sequence/*/IpAddressModel*.json`, `GUIDModel*.json`, `HashtagModel*.json`, `MentionModel*.json`, `EmailModel*.json`,
+`URLModel*.json` (English and the cultures routed to the Chinese configuration), `Choice/English/BooleanModel*.json`), each with the
 fields the repository's own runner compares: number of results, TypeName, Text, Resolution.value and, for the sequence
 runner, Resolution.score when the spec states it.  The theorems say that the **model** — `RTV.Seq` / `RTV.Choice` on
 the regenerated regexes and the runtime tables, run as `IpAddressModel.parse` / `GUIDModel.parse` / `BooleanModel.parse`
@@ -37,8 +43,34 @@ theorem spec_guid_cases : guidOK genSeqEnv specCases_guid = true := by
 theorem spec_boolean_cases : boolOK RTV.Choice.genEnv specCases_bool = true := by
   rw [← RTV.Choice.fastEnv_eq]; exact spec_bool_fast
 
+/-- every supported English `HashtagModel` case -/
+theorem spec_hashtag_cases :
+    simpleOK genSeqEnv hashtagRegex (RTV.Py.ofString "hashtag") specCases_hashtag = true := by
+  rw [← fastSeqEnv_eq]; exact spec_hashtag_fast
+
+/-- every supported English `MentionModel` case -/
+theorem spec_mention_cases :
+    simpleOK genSeqEnv mentionRegex (RTV.Py.ofString "mention") specCases_mention = true := by
+  rw [← fastSeqEnv_eq]; exact spec_mention_fast
+
+/-- every supported English `EmailModel` case -/
+theorem spec_email_cases :
+    simpleOK genSeqEnv emailRegex (RTV.Py.ofString "email") specCases_email = true := by
+  rw [← fastSeqEnv_eq]; exact spec_email_fast
+
+/-- every supported English `URLModel` case (three regexes, TLD check, ambiguous time terms, sweep) -/
+theorem spec_url_cases : urlSpecOK genSeqEnv false specCases_urlEn = true := by
+  rw [← fastSeqEnv_eq]
+  exact all_take_drop _ _ 23 spec_url_en_a_fast spec_url_en_b_fast
+
+/-- every supported `URLModel` case of the cultures routed to the Chinese configuration (zh-*, ja-*) -/
+theorem spec_url_cases_zh : urlSpecOK genSeqEnv true specCases_urlZh = true := by
+  rw [← fastSeqEnv_eq]
+  exact all_take_drop _ _ 21 spec_url_zh_a_fast spec_url_zh_b_fast
+
 /-- the case lists are not empty (the obligations are not vacuous) -/
 theorem spec_case_counts : specCases_ipEn.length ≥ 30 ∧ specCases_ipZh.length ≥ 30 ∧ specCases_guid.length ≥ 10 ∧
-    specCases_bool.length ≥ 10 := by decide
+    specCases_bool.length ≥ 10 ∧ specCases_hashtag.length ≥ 5 ∧ specCases_mention.length ≥ 5 ∧
+    specCases_email.length ≥ 10 ∧ specCases_urlEn.length ≥ 30 ∧ specCases_urlZh.length ≥ 30 := by decide
 
 end RTV.C19
